@@ -15,7 +15,8 @@
 EXTENDS Integers, Sequences, FiniteSets, TLC
 
 Families == {"network", "dirnetwork", "geonetwork", "interacting", "resnetwork", "rp", "rn", "crp", "jrp",
-             "jrn", "climate", "climatedata", "surrogates", "visibility", "tsonis", "hilbert", "isrn", "ccn", "escn"}
+             "jrn", "climate", "climatedata", "surrogates", "visibility", "tsonis", "hilbert", "isrn", "ccn", "escn",
+             "spearman", "partialcorr", "mutualinfo", "havlin"}
 
 Init0(f) ==
   IF f \in {"network", "dirnetwork", "interacting", "visibility"} THEN [A |-> 1, W |-> 0, LA |-> 0]
@@ -24,7 +25,8 @@ Init0(f) ==
   ELSE IF f \in {"rp", "rn"} THEN [MODE |-> "threshold", P |-> 1]
   ELSE IF f \in {"crp", "jrp", "jrn"} THEN [MODE |-> "threshold", P |-> 1]
   ELSE IF f \in {"climate", "ccn", "escn"} THEN [MODE |-> "threshold", P |-> 1, NL |-> 0]
-  ELSE IF f = "tsonis" THEN [MODE |-> "threshold", P |-> 1, NL |-> 0, WO |-> 0]
+  ELSE IF f \in {"tsonis", "spearman", "partialcorr", "mutualinfo"} THEN [MODE |-> "threshold", P |-> 1, NL |-> 0, WO |-> 0]
+  ELSE IF f = "havlin" THEN [MODE |-> "threshold", P |-> 1, NL |-> 0, MD |-> 1]
   ELSE IF f = "hilbert" THEN [MODE |-> "threshold", P |-> 1, NL |-> 0, DIR |-> 1]
   ELSE IF f = "isrn" THEN [MODE |-> "threshold", P |-> 1]
   ELSE IF f = "climatedata" THEN [WIN |-> 0]
@@ -62,7 +64,10 @@ Alphabet(f) ==
   \* two-layer and event-based climate networks: the similarity-network mutators
   ELSE IF f \in {"ccn", "escn"} THEN ClimMut
   \* data-driven climate networks: the similarity itself is recomputed by set_winter_only / set_directed
-  ELSE IF f = "tsonis" THEN ClimMut \cup {<<"set_winter_only", 0>>, <<"set_winter_only", 1>>}
+  ELSE IF f \in {"tsonis", "spearman", "partialcorr", "mutualinfo"}
+       THEN ClimMut \cup {<<"set_winter_only", 0>>, <<"set_winter_only", 1>>}
+  \* Havlin: the maximal delay of the cross-correlation functions the similarity is taken from
+  ELSE IF f = "havlin" THEN ClimMut \cup {<<"set_max_delay", 1>>, <<"set_max_delay", 2>>}
   ELSE IF f = "hilbert" THEN ClimMut \cup {<<"set_directed", 0>>, <<"set_directed", 1>>}
   ELSE IF f = "climate" THEN {<<"set_threshold", 1>>, <<"set_threshold", 2>>, <<"set_link_density", 1>>,
                               <<"set_link_density", 2>>, <<"set_non_local", 0>>, <<"set_non_local", 1>>}
@@ -89,6 +94,7 @@ Apply(f, a, m) ==
   ELSE IF name = "set_non_local" THEN [a EXCEPT !.NL = v]
   ELSE IF name = "set_winter_only" THEN [a EXCEPT !.WO = v]
   ELSE IF name = "set_directed" THEN [a EXCEPT !.DIR = v]
+  ELSE IF name = "set_max_delay" THEN [a EXCEPT !.MD = v]
   ELSE IF name = "set_window" THEN [a EXCEPT !.WIN = v]
   ELSE IF name = "set_global_window" THEN [a EXCEPT !.WIN = 0]
   ELSE IF name = "embedding" THEN [a EXCEPT !.EMB = v]
@@ -102,7 +108,8 @@ Init == abs = Init0(Family) /\ hist = <<>>
 \* data-driven climate networks keep the THRESHOLD when the similarity is recomputed (a prescribed density
 \* is turned into a threshold when it is set), so the similarity-changing setters are driven from
 \* threshold mode only - there the abstract state determines the network
-Enabled(f, a, m) == (f \in {"tsonis", "hilbert"} /\ m[1] \in {"set_winter_only", "set_directed"}) => a.MODE = "threshold"
+Enabled(f, a, m) == (f \in {"tsonis", "hilbert", "spearman", "partialcorr", "mutualinfo", "havlin"}
+                     /\ m[1] \in {"set_winter_only", "set_directed", "set_max_delay"}) => a.MODE = "threshold"
 Mutate(m) == Len(hist) < Depth /\ Enabled(Family, abs, m) /\ abs' = Apply(Family, abs, m) /\ hist' = Append(hist, m)
 Next == \E m \in Alphabet(Family) : Mutate(m)
 \* every reachable history is a behaviour to be replayed (printed once per distinct history)
